@@ -24,11 +24,14 @@ Trace == ndJsonDeserialize(TraceFile)
 
 VARIABLES l, kinds,
           padd,   \* a Set.Add in progress: [st |-> "none" | "open" | "done", desc]
-          snap    \* a Set.Current() in progress: [st |-> "none" | "open" | "read", v |-> listing]
+          snap    \* a Set.Current() in progress: [st |-> "none" | "open" | "reading", ids, v]; Current holds the
+                  \* READ lock and loads the counts one by one: no Add / Prune (write lock) can interleave,
+                  \* but the atomic decrements of racing Checks can - the listing is not an atomic snapshot
+                  \* ("out of date by the time the value is returned", faults/set.go)
 tvars == <<desc, count, list, pc, call, prunes, fired, hits, avail, expired, clock, startAt, endAt, l, kinds, padd, snap>>
 fvars == <<desc, count, list, pc, call, prunes, fired, hits, avail, expired, clock, startAt, endAt>>
 NoAdd == [st |-> "none", desc |-> <<>>]
-NoSnap == [st |-> "none", v |-> <<>>]
+NoSnap == [st |-> "none", ids |-> {}, v |-> <<>>, w |-> <<>>]
 
 NoCall == [op |-> "", params |-> <<>>]
 E == [desc |-> <<>>, count |-> <<>>, list |-> <<>>, fired |-> <<>>,
@@ -54,6 +57,14 @@ IsListing(cur, v) ==
   /\ \A j1, j2 \in DOMAIN cur : cur[j1].d = cur[j2].d => j1 = j2
   /\ \A i \in DOMAIN v : v[i] = (IF \E j \in DOMAIN cur : cur[j].d = i
                                   THEN cur[CHOOSE j \in DOMAIN cur : cur[j].d = i].k ELSE 0)
+\* v: the listing when Current took the read lock, w: the listing when it released it. Counts only
+\* decrease (by one per decrement) and every count is loaded at its own moment in between, so any
+\* value between the two is a possible reading of that description.
+ObsOf(cur, i) == IF \E j \in DOMAIN cur : cur[j].d = i THEN cur[CHOOSE j \in DOMAIN cur : cur[j].d = i].k ELSE 0
+IsReading(cur, sn) ==
+  /\ \A j \in DOMAIN cur : cur[j].d \in sn.ids /\ cur[j].k > 0
+  /\ \A j1, j2 \in DOMAIN cur : cur[j1].d = cur[j2].d => j1 = j2
+  /\ \A i \in sn.ids : sn.w[i] <= ObsOf(cur, i) /\ ObsOf(cur, i) <= sn.v[i]
 
 \* Add and Current are calls with a duration too: AddB / CurB mark their
 \* invocation, Add / Current their return; the effect (append / read) is an
@@ -68,17 +79,24 @@ Line(e) ==
     [] e.op = "End" -> /\ \/ e.out = 0 /\ Pass(e.c)
                           \/ e.out # 0 /\ pc[e.c].d = e.out /\ Finish(e.c)
                        /\ UNCHANGED <<kinds, padd, snap>>
-    [] e.op = "CurB" -> /\ snap.st = "none" /\ snap' = [st |-> "open", v |-> <<>>]
+    [] e.op = "CurB" -> /\ snap.st = "none" /\ snap' = [NoSnap EXCEPT !.st = "open"]
                         /\ UNCHANGED <<fvars, kinds, padd>>
-    [] e.op = "Current" -> /\ snap.st = "read" /\ IsListing(e.cur, snap.v) /\ snap' = NoSnap
+    [] e.op = "Current" -> /\ snap.st = "read" /\ IsReading(e.cur, snap) /\ snap' = NoSnap
                            /\ UNCHANGED <<fvars, kinds, padd>>
 
 Hidden ==
   \/ /\ \/ \E c \in Callers : Match(c) \/ Dec(c) \/ Decide(c)
-        \/ Prune
+        \/ (snap.st # "reading" /\ Prune)                     \* the write lock is not available while Current reads
      /\ UNCHANGED <<padd, snap>>
-  \/ /\ padd.st = "open" /\ Add(padd.desc) /\ padd' = [padd EXCEPT !.st = "done"] /\ UNCHANGED snap
-  \/ /\ snap.st = "open" /\ snap' = [st |-> "read", v |-> Listing] /\ UNCHANGED <<fvars, padd>>
+  \/ /\ padd.st = "open" /\ snap.st # "reading" /\ Add(padd.desc) /\ padd' = [padd EXCEPT !.st = "done"] /\ UNCHANGED snap
+  \* Current takes the read lock (it sees this list, no Add / Prune until it is done) ...
+  \/ /\ snap.st = "open"
+     /\ snap' = [st |-> "reading", ids |-> Range(list), v |-> [i \in Range(list) |-> Listing[i]], w |-> <<>>]
+     /\ UNCHANGED <<fvars, padd>>
+  \* ... and releases it after loading every count
+  \/ /\ snap.st = "reading"
+     /\ snap' = [snap EXCEPT !.st = "read", !.w = [i \in snap.ids |-> Listing[i]]]
+     /\ UNCHANGED <<fvars, padd>>
 
 TraceNext ==
   /\ l <= Len(Trace)
